@@ -980,5 +980,107 @@ Section Proofs.
     Theorem run_accepts_thm (ids : list K) last0 trace :
       trace_ok ids 0 trace -> exists st : sim K A, run ids (init ids last0) trace = OkS st.
     Proof. intro H. apply run_some; [apply init_Inv|exact H]. Qed.
+
+    (* ---------------- order independence of a whole run ---------------- *)
+    (* the same period, with the entries of the submitted mapping (if any) in another order *)
+    Definition pin_perm (a b : period_in K A) : Prop :=
+      p_last a = p_last b /\
+      match p_sub a, p_sub b with
+      | None, None => True
+      | Some s, Some s' => Permutation s s' /\ NoDup (map fst s)
+      | _, _ => False
+      end.
+    (* equal in everything but the order of the entries inside the recorded schedule history *)
+    Definition same_pilots (x y : sim K A) : Prop := pil x = pil y /\ itn x = itn y /\ sent x = sent y.
+    Definition res_same (r r' : resS (sim K A)) : Prop :=
+      match r, r' with
+      | OkS a, OkS b => same_pilots a b
+      | ErrS e a, ErrS e' b => e = e' /\ same_pilots a b
+      | _, _ => False
+      end.
+
+    Lemma send_same last (a b : sim K A) : same_pilots a b -> res_same (send zero last a) (send zero last b).
+    Proof.
+      destruct a, b. unfold same_pilots. simpl. intros [-> [-> ->]]. unfold send. simpl.
+      destruct (read_col _ _); simpl; unfold same_pilots; simpl; auto.
+    Qed.
+
+    Lemma step_same (ids : list K) (a b : sim K A) pa pb :
+      same_pilots a b -> pin_perm pa pb -> res_same (step ids a pa) (step ids b pb).
+    Proof.
+      intros Hs [Hl Hp]. unfold Pilots.step. rewrite <- Hl.
+      destruct (p_sub pa) as [s|], (p_sub pb) as [s'|]; try tauto.
+      - destruct Hp as [Hperm Hnd]. destruct Hs as [Hpil [Hit Hsent]].
+        rewrite <- Hpil, <- Hit, <- (update_perm keqb_spec ids (p_last pa) (itn a) (pil a) s s' Hperm Hnd).
+        destruct (Pilots.update_schedules keqb zero ids (p_last pa) (itn a) (pil a) s) as [p'|e pe].
+        + apply send_same. unfold same_pilots. simpl. auto.
+        + simpl. unfold same_pilots. simpl. auto.
+      - now apply send_same.
+    Qed.
+
+    Theorem run_perm_thm (ids : list K) t t' :
+      Forall2 pin_perm t t' -> forall a b : sim K A, same_pilots a b -> res_same (run ids a t) (run ids b t').
+    Proof.
+      induction 1 as [|pa pb t t' Hp H2 IH]; simpl; intros a b Hs; auto.
+      pose proof (step_same ids a b pa pb Hs Hp) as Hstep.
+      destruct (step ids a pa) as [a1|e a1], (step ids b pb) as [b1|e' b1]; simpl in Hstep; try tauto.
+      - now apply IH.
+      - exact Hstep.
+    Qed.
+
+    (* ---------------- complete classification of the outcomes of _update_schedules ---------------- *)
+    Lemma distinct_two_inv l : 1 < length (distinct l) -> exists a b, In a l /\ In b l /\ a <> b.
+    Proof.
+      intro H. pose proof (NoDup_distinct l) as Hnd.
+      destruct (distinct l) as [|x [|y t]] eqn:E; simpl in H; try lia.
+      exists x, y. repeat split.
+      - apply In_distinct. rewrite E. simpl. auto.
+      - apply In_distinct. rewrite E. simpl. auto.
+      - inversion Hnd as [|? ? Hnotin _]; subst. intro; subst. apply Hnotin. simpl. auto.
+    Qed.
+
+    Theorem classify_thm (ids : list K) last it (p : pmat A) (s : schedule K A) :
+      wfm (length ids) p ->
+      match update_schedules ids last it p s with
+      | OkS p' =>
+          (s = [] /\ p' = p) \/
+          (s <> [] /\ (forall k row, In (k, row) s -> In k ids /\ length row = sub_len s))
+      | ErrS e pe =>
+          pe = p /\
+          ((e = "KeyError"%string /\ exists k row, In (k, row) s /\ ~ In k ids) \/
+           (e = "InvalidScheduleError"%string /\ (forall k row, In (k, row) s -> In k ids) /\
+            exists k1 r1 k2 r2, In (k1, r1) s /\ In (k2, r2) s /\ length r1 <> length r2))
+      end.
+    Proof.
+      intro Hwf.
+      destruct (update_schedules ids last it p s) as [p'|e pe] eqn:E.
+      - destruct (update_ok_inv ids last it p p' s E) as [H|[Hne [Hk Hu]]]; [left; exact H|right].
+        split; auto. intros k row Hin. split; [|eauto]. apply (known_In keqb_spec). eauto.
+      - destruct s as [|kv0 s0] eqn:Es; [discriminate E|]. rewrite <- Es in *.
+        assert (Hne : s <> []) by (rewrite Es; discriminate).
+        destruct (existsb (fun kv : K * list A => negb (known ids (fst kv))) s) eqn:E1.
+        + apply existsb_exists in E1. destruct E1 as [[k row] [Hin Hx]]. simpl in Hx.
+          apply negb_true_iff in Hx.
+          rewrite (update_unknown ids last it p s k row Hin Hx) in E. inversion E; subst.
+          split; auto. left. split; auto. exists k, row. split; auto.
+          intro Hk. apply (known_In keqb_spec) in Hk. congruence.
+        + assert (Hk : all_known ids s).
+          { intros k row Hin. destruct (known ids k) eqn:Ek; auto.
+            assert (existsb (fun kv : K * list A => negb (known ids (fst kv))) s = true).
+            { apply existsb_exists. exists (k, row). simpl. rewrite Ek. auto. }
+            congruence. }
+          destruct (Nat.le_gt_cases (length (lengths s)) 1) as [Hle|Hgt].
+          * exfalso.
+            assert (Hu : uniform s (hd 0 (map (fun kv : K * list A => length (snd kv)) s))).
+            { intros k row Hin. apply (distinct_uniform _ Hle). apply in_map_iff. exists (k, row). auto. }
+            destruct (update_accept ids last it p s _ Hwf Hne Hk Hu) as [p' [Hok _]]. congruence.
+          * destruct (distinct_two_inv _ Hgt) as [a [b [Ha [Hb Hab]]]].
+            apply in_map_iff in Ha. destruct Ha as [[k1 r1] [<- H1]].
+            apply in_map_iff in Hb. destruct Hb as [[k2 r2] [<- H2]]. simpl in Hab.
+            rewrite (update_ragged ids last it p s k1 r1 k2 r2 Hk H1 H2 Hab) in E. inversion E; subst.
+            split; auto. right. split; auto. split.
+            -- intros k row Hin. apply (known_In keqb_spec). eauto.
+            -- exists k1, r1, k2, r2. auto.
+    Qed.
   End Final.
 End Proofs.
